@@ -60,12 +60,7 @@ def hdrSize (e : Eapol) : Nat := 5 + subLen e.rsn + e.key.length
 def subForWrite (e : Eapol) : Bytes :=
   if e.key.length == 0 then e.sub
   else if !e.rsn then patch e.sub 0 (OutCursor.beBytes 2 e.key.length)        -- RC4: key_length = key_.size()
-  else
-    let b1 := byteAt e.sub 1
-    let keyT := b1 / 8 % 2
-    let install := b1 / 64 % 2
-    let s := if keyT == 0 && install == 1 then patch e.sub 2 (OutCursor.beBytes 2 32) else e.sub
-    patch s 92 (OutCursor.beBytes 2 e.key.length)                               -- wpa_length = key_.size()
+  else patch e.sub 92 (OutCursor.beBytes 2 e.key.length)                        -- RSN: wpa_length = key_.size()
 
 /-- `EAPOL::write_serialization`: `length(total_sz - 4)`, `stream.write(header_)`, a redundant raw
     `memcpy(buffer, &header_, 5)`, then `write_body(stream)` -/
@@ -93,9 +88,9 @@ def fields (e : Eapol) : Fields :=
      ("install", toString (b1 / 64 % 2)), ("key_ack", toString (b1 / 128 % 2)),
      ("key_length", toString (beAt s 2 2)), ("replay_counter", toString (beAt s 4 8)),
      ("nonce", hexAt s 12 32), ("key_iv", hexAt s 44 16), ("rsc", hexAt s 60 8), ("id", hexAt s 68 8),
-     ("mic", hexAt s 76 16), ("wpa_length", toString (beAt s 92 2)), ("key", hexStr e.key)]
+     ("mic", hexAt s 76 16), ("~wpa_length", toString (beAt s 92 2)), ("key", hexStr e.key)]
    else
-    [("key_length", toString (beAt s 0 2)), ("replay_counter", toString (beAt s 2 8)), ("key_iv", hexAt s 10 16),
+    [("~key_length", toString (beAt s 0 2)), ("replay_counter", toString (beAt s 2 8)), ("key_iv", hexAt s 10 16),
      ("key_flag", toString (byteAt s 26 / 128)), ("key_index", toString (byteAt s 26 % 128)),
      ("key_sign", hexAt s 27 16), ("key", hexStr e.key)])
 
